@@ -1,8 +1,10 @@
 (* C11 -- Basket tokens stay fully backed; mint, burn and swap are value-preserving.
    Only statements, each closed by [exact] of a lemma of Proofs/Basket.v, and its assumptions.
    The model (Model/Basket.v) is tied to /repo on every run by the differential run of the real msg
-   server against it; [current] is the code as it is, [repaired] the two proposed repairs
-   (fixes/C11-*.patch); the harness probes which one the tree implements. *)
+   server against it; [current] is the code as it is (EditBasket keeps the amount since 68b9c08),
+   [before_68b9c08] the tree before that commit, [repaired] adds the two proposed repairs
+   (fixes/C11-burn-supply-before.patch, fixes/C11-upsert-hook-skip.patch); the harness probes which
+   variant the tree implements. *)
 From Sekai Require Import Base.Prelude Base.Dec Model.Basket Model.C11Check Proofs.Basket.
 
 (* Minting yields at most the weighted value deposited (and a positive amount, added to the supply) *)
@@ -74,6 +76,16 @@ Theorem C11_books_match_bank : forall v ops s, Forall op_ok ops -> Inv s -> Inv 
 Proof. exact books_match_bank. Qed.
 Print Assumptions C11_books_match_bank.
 
+(* The same invariant at full strength for the tree as it is (EditBasket keeps the stored amount,
+   68b9c08): histories may also contain ANY edit proposals with a swap fee in [0,1] -- accepted or
+   rejected, changing weights, dropping or adding tokens, limits, caps, flags -- and the recorded
+   reserves stay non-negative throughout. *)
+Theorem C11_books_match_bank_with_edits : forall v ops s, Forall (op_okE v) ops -> InvE s -> InvE (run v s ops).
+Proof. exact books_match_bank_with_edits. Qed.
+Print Assumptions C11_books_match_bank_with_edits.
+Example C11_current_tree_admits_edits : forall new, fee_ok new -> op_okE current (OEdit new).
+Proof. intros new H. split; [reflexivity|exact H]. Qed.
+
 (* edits: with the repair they touch neither amount, supply, surplus nor balances, and every
    accepted edit leaves the supply covered by the new valuation of the reserves ... *)
 Theorem C11_edit_keeps_amount_repaired : forall v s new s', v_edit_keep v = true -> edit v s new = Ok s' ->
@@ -85,10 +97,11 @@ Theorem C11_edit_leaves_supply_covered : forall v s new s', edit v s new = Ok s'
   exists vs, token_values (b_tokens (s_bk s')) = Ok vs /\ s_supply s' <= trunc_int (zsum vs).
 Proof. exact edit_leaves_supply_covered. Qed.
 Print Assumptions C11_edit_leaves_supply_covered.
-(* ... REFUTED for the code as it is (amount taken from the proposal) *)
-Theorem C11_books_edit_refuted : exists s new s', Books s /\ edit current s new = Ok s' /\ s_supply s' <> b_amount (s_bk s').
+(* ... it was REFUTED for the tree before commit 68b9c08 (amount taken from the proposal) *)
+Theorem C11_books_edit_refuted_before_68b9c08 :
+  exists s new s', Books s /\ edit before_68b9c08 s new = Ok s' /\ s_supply s' <> b_amount (s_bk s').
 Proof. exact books_edit_refuted. Qed.
-Print Assumptions C11_books_edit_refuted.
+Print Assumptions C11_books_edit_refuted_before_68b9c08.
 (* and REFUTED for the pool-upsert hook, which replaces the record of basket 1 *)
 Theorem C11_books_upsert_hook_refuted : exists s, Books s /\ ~ Books (apply current s (OUpsertHook true)).
 Proof. exact books_upsert_hook_refuted. Qed.
@@ -120,6 +133,48 @@ Theorem C11_burn_disabled_token_pays_nothing : forall ts p outs, withdraw_coins 
   forall d, (forall t, In t ts -> t_denom t = d -> t_wd t = false) -> ssum outs d = 0.
 Proof. exact burn_disabled_token_pays_nothing. Qed.
 Print Assumptions C11_burn_disabled_token_pays_nothing.
+
+(* Backing over histories: over EVERY history of mints and multi-pair swaps by anybody, edit proposals
+   (positive weights, fee in [0,1]), switches, the slash / raise hooks as they are, and end blocks,
+   the supply exceeds the reserves valued at the weights by at most what it did at the start plus
+   the accumulated rounding slack of the swaps (w_out/(2*10^18) + 1 scaled units per pair); the
+   slash hook changes no weight on this tree, so there is no slash loss to add. *)
+Theorem C11_backed_over_histories : forall v ops s, Forall (op_okB v) ops -> InvB s ->
+  InvB (run v s ops) /\ gap (run v s ops) <= Z.max (gap s) 0 + run_slack v s ops.
+Proof. exact backed_over_histories. Qed.
+Print Assumptions C11_backed_over_histories.
+(* per operation: minting never widens the gap, an accepted edit closes it *)
+Theorem C11_mint_keeps_backing : forall s now a dep s', mint s now a dep = Ok s' -> gap s' <= gap s.
+Proof. exact mint_keeps_backing. Qed.
+Print Assumptions C11_mint_keeps_backing.
+Theorem C11_edit_restores_backing : forall v s new s', edit v s new = Ok s' -> 0 < s_supply s' -> Backed s'.
+Proof. exact edit_restores_backing. Qed.
+Print Assumptions C11_edit_restores_backing.
+(* burns are excluded above because on the code as it is they REFUTE backing outright: a fully backed
+   state with consistent books, one accepted burn of x, and the supply left exceeds the reserves'
+   value by the whole x (not by rounding) *)
+Theorem C11_backed_refuted : exists s a x s', Books s /\ Backed s /\ burn current s 0 a 0 x = Ok s' /\ gap s' = x * PREC.
+Proof. exact backed_refuted. Qed.
+Print Assumptions C11_backed_refuted.
+
+(* any swap message on a basket that has tokens but no reserves panics (division by the zero average) *)
+Theorem C11_swap_without_reserves_panics : forall s now a ps t r,
+  b_sd (s_bk s) = false -> b_tokens (s_bk s) = t :: r -> (forall u, In u (t :: r) -> t_amount u = 0) ->
+  swap s now a ps = Panic "division by zero".
+Proof. exact swap_without_reserves_panics. Qed.
+Print Assumptions C11_swap_without_reserves_panics.
+
+(* checker soundness (books clause): an observation the spec checker accepts is a state satisfying
+   the invariant, so every model step of a holder from it keeps the books *)
+Theorem C11_books_clause_reflects : forall p, books p = true ->
+  (forall d, ~ In d (denoms_of p) -> bal_at p MODULE d = 0) -> Books (state_of_post p).
+Proof. exact books_reflects. Qed.
+Print Assumptions C11_books_clause_reflects.
+Theorem C11_books_clause_sound_step : forall v p o s', books p = true ->
+  (forall d, ~ In d (denoms_of p) -> bal_at p MODULE d = 0) -> fee_ok (p_bk p) -> op_ok o ->
+  step v (state_of_post p) o = Ok s' -> Books s'.
+Proof. exact books_clause_sound_step. Qed.
+Print Assumptions C11_books_clause_sound_step.
 
 (* non-vacuity of the invariant: a state with two holders satisfies it *)
 Example C11_books_nonvacuous : Books wit_state.
